@@ -25,6 +25,7 @@ FAMILIES = {
     'useless_cyclic': (['S', 'A', 'B'], [('S', 'aS')], [('S', ''), ('S', 'A'), ('A', 'B'), ('B', 'A'), ('B', 'b'), ('A', 'AA'), ('B', 'Bb'), ('S', 'BS')]),
     'indirect_nullable': (['S', 'T', 'U'], [], [('S', 'T'), ('S', 'TU'), ('T', 'U'), ('T', 'a'), ('U', ''), ('U', 'b'), ('S', 'aTb'), ('U', 'UU')]),
     'repeated_nullable': (['S', 'A'], [('S', 'AbA')], [('A', ''), ('A', 'a'), ('S', 'ASA'), ('A', 'AA'), ('S', 'a')]),
+    'nullable_by_pair': (['S', 'A', 'B'], [('S', 'aAb'), ('A', 'BB')], [('B', ''), ('B', 'b'), ('A', 'a'), ('S', 'ab'), ('B', 'a'), ('S', 'AA')]),
     'shared_rhs': (['S', 'A', 'B'], [('S', 'AB'), ('A', 'ab'), ('B', 'ab')], [('A', 'B'), ('B', ''), ('S', 'ab'), ('A', 'aAb'), ('B', 'b')]),
     'length5': (['S', 'A'], [('S', 'abAba')], [('A', 'a'), ('A', ''), ('S', 'aAbAa'), ('A', 'bb'), ('S', 'AabbA')]),
 }
@@ -78,7 +79,7 @@ def grammar_changed(entries, G):
     return d.any_(d.iff(before.get(k, FALSE), aft.get(k, FALSE)) ^ 1 for k in set(before) | set(aft))
 
 
-def job_phase(job, family, what, maxlen, nsym=None, terminals=('a', 'b'), words=None, phase=None):
+def job_phase(job, family, what, maxlen, nsym=None, terminals=('a', 'b'), words=None, phase=None, second_start=False):
     """what: one of PHASES (single phase on an arbitrary grammar), 'cfg_to_chomsky', or 'apply' (pipeline prefix `phase`)"""
     import gambatools.cfg_algorithms as CA
     from .cfg_sym import sym_cfg, entries_json, GrammarSem
@@ -104,9 +105,27 @@ def job_phase(job, family, what, maxlen, nsym=None, terminals=('a', 'b'), words=
         G1 = job.call(cfg_apply_chomsky, G, phase, 'S', replay=rp)
     else:
         G1 = job.call(getattr(CA, what), G, replay=rp)
+    G1b = None
+    if second_start and G1 is not None:
+        # call history: the same rules with another start variable converted right after the first grammar (hidden state keyed
+        # on the rules alone would hand out the first grammar's result)
+        import gambatools.cfg as C
+        G2 = C.CFG(G.V, G.Sigma, G.R, C.Variable(variables[1]))
+        rph = ('phase_history', {'G': dec, 'what': what, 'maxlen': maxlen, 'second_start': variables[1]})
+        G1b = job.call(getattr(CA, what), G2, replay=rph)
     job.lifted()
     if G1 is None:
         return job.solve()
+    if G1b is not None:
+        eb = result_entries(G1b)
+        sb = {str(k): v for k, v in c.alt_map(G1b.S).items()}
+        vb = list(variables) + [str(v) for v in L._setview(G1b.V).m if str(v) not in variables]
+        for w in c.words_upto(terminals, maxlen):
+            s0 = GrammarSem(entries, variables, w)
+            s1 = GrammarSem([(lit, X, rhs) for lit, X, rhs, kinds in eb], vb, w, fold=True)
+            after = d.any_(d.and_(g, s1.derives(X)) for X, g in sb.items())
+            job.oblige('after converting the same rules with start variable %s: %s of the grammar with start variable %s preserves the language on %r'
+                       % (start, what, variables[1], w), d.iff(s0.derives(variables[1]), after) ^ 1, replay=rph)
     ncfg = c.native('cfg_algorithms')
 
     def nat_view(mv):
@@ -175,6 +194,10 @@ def jobs(tier):
     fams = ['eps_unit', 'three_vars', 'useless_cyclic', 'indirect_nullable', 'repeated_nullable', 'shared_rhs']
     for fam in fams:
         add('chomsky_%s' % fam, family=fam, what='cfg_to_chomsky', maxlen=ml, nsym=ns, timeout=tmo)
+    add('chomsky_history_eps_unit', family='eps_unit', what='cfg_to_chomsky', maxlen=2, nsym=5, second_start=True, timeout=tmo)
+    add('chomsky_history_three_vars', family='three_vars', what='cfg_to_chomsky', maxlen=2, nsym=5, second_start=True, timeout=tmo)
+    add('chomsky_nullable_by_pair', family='nullable_by_pair', what='cfg_to_chomsky', maxlen=ml, nsym=5, timeout=tmo)
+    add('single_remove_epsilon_rules_by_pair', family='nullable_by_pair', what='cfg_remove_epsilon_rules', maxlen=ml, nsym=5, timeout=tmo)
     add('chomsky_long', family='long', what='cfg_to_chomsky', maxlen=ml, nsym=4 if quick else 6, timeout=tmo)
     add('chomsky_length5', family='length5', what='cfg_to_chomsky', maxlen=0, nsym=3 if quick else 5, timeout=tmo,
         words=['', 'ababa', 'abba', 'abbba', 'aabaa', 'aababaa', 'ababba', 'aabba', 'abbbba', 'aabbbaa'])
@@ -261,4 +284,20 @@ def _replay_phase(rp):
     return bool(problems), {'grammar': str(nat.mk_cfg(js)), 'result': str(G1)[:300], 'problems': problems[:4]}
 
 
-REPLAY = {'phase': _replay_phase}
+def _replay_phase_history(rp):
+    import gambatools.cfg_algorithms as CA
+    js = rp['G']
+    js2 = dict(js, S=rp['second_start'])
+    words = nat.words_upto(js['Sigma'], rp['maxlen'])
+    problems = []
+    for j in (js, js2, js):
+        try:
+            j1 = nat.cfg_json_of(getattr(CA, rp['what'])(nat.mk_cfg(j)))
+            if _lang(j, words) != _lang(j1, words):
+                problems.append('start %s (after earlier calls): language differs on %r' % (j['S'], sorted(_lang(j, words) ^ _lang(j1, words), key=lambda w: (len(w), w))[:3]))
+        except Exception as e:
+            problems.append('start %s: %r' % (j['S'], e))
+    return bool(problems), {'problems': problems}
+
+
+REPLAY = {'phase_history': _replay_phase_history, 'phase': _replay_phase}
